@@ -24,6 +24,22 @@ ASSUMPTIONS = ['irsem is the meaning of the IR; memory is flat (segment annotati
 
 WIDTHS = (8, 16, 32)
 CONST_BASE = 0x1000
+STEP_BUDGET = 300000      # rewrite steps of the simplifier allowed inside one library call (bounded progress)
+
+
+class budget(object):
+    """Logical progress bound on the simplifier while a library call runs (StepBound on overflow)."""
+
+    def __enter__(self):
+        from vf.checks import c05
+        c05.install_monitor()
+        c05._counter['n'] = 0
+        c05._counter['limit'] = STEP_BUDGET
+
+    def __exit__(self, *a):
+        from vf.checks import c05
+        c05._counter['limit'] = 0
+        return False
 
 
 def base_expr(kind):
@@ -104,7 +120,7 @@ def run_ir_history(sh, kind, ops, tag, origin):
             _, off, w = op
             v = ex.ExprId('v%d_%d' % (idx, w), w)
             try:
-                with common.alarm_guard(30):
+                with common.alarm_guard(120), budget():
                     m.eval_instr([ex.ExprAff(ex.ExprMem(addr(kind, off), w), v)])
             except common.alarm_guard.Fired:
                 sh.counters['watchdog_fired'] += 1
@@ -130,14 +146,14 @@ def run_ir_history(sh, kind, ops, tag, origin):
             # mechanism class: relation of the read to the most recent write it overlaps
             relkey = over[-1] if over else 'disjoint'
             try:
-                with common.alarm_guard(30):
+                with common.alarm_guard(120), budget():
                     r = m.eval_expr(ex.ExprMem(addr(kind, off), w), {})
             except common.alarm_guard.Fired:
                 sh.counters['watchdog_fired'] += 1
                 return
             except Exception as e:
                 sh.case(canon, True, cls='%s:%s' % (origin, kind))
-                sh.violation('ir/%s/load-raises:%s/%s' % (kind, type(e).__name__, relkey), 'load %d bits at +%d after stores %s raised %r' % (w, off, stores, e), wit)
+                sh.violation('ir/%s/%s/wrong-readback' % (kind, relkey), '[raises:%s] load %d bits at +%d after stores %s raised %r' % (type(e).__name__, w, off, stores, e), wit)
                 return
             bad = None
             try:
@@ -178,11 +194,20 @@ REGS16 = ['%ax', '%bx', '%cx', '%dx']
 REGS8 = ['%al', '%bl', '%cl', '%dl', '%ah', '%bh']
 
 
-def gen_line(rng):
+def gen_line(rng, alias=True):
     sfx, regs, imm = rng.choice((('l', REGS32, 0x12345678), ('w', REGS16, 0x1234), ('b', REGS8, 0x12)))
     mem = '%d(%%esi)' % rng.randint(0, 7)
+    if not alias:
+        # no partial overlap: memory is only accessed as aligned dwords at +0 / +4 / +8
+        if rng.random() < 0.5:
+            sfx, regs = 'l', REGS32
+        mem = '%d(%%esi)' % rng.choice((0, 4, 8)) if sfx == 'l' else rng.choice(regs)
     r1, r2 = rng.choice(regs), rng.choice(regs)
     k = rng.random()
+    if not alias and 0.79 <= k < 0.84:
+        return rng.choice(('pushl %eax', 'pushl %ebx', 'popl %ecx', 'popl %edx', 'pushl $7'))
+    if not alias and k >= 0.92 and k < 0.96:
+        return 'movz%sl %s, %s' % ('b', rng.choice(REGS8), rng.choice(REGS32))
     if k < 0.22:
         return 'mov%s %s, %s' % (sfx, r1, mem)
     if k < 0.40:
@@ -236,15 +261,28 @@ def emulate_and_compare(sh, lines, blobs, tag, origin, rep=False):
         return
     m = emul_helper.x86_machine()
     try:
-        with common.alarm_guard(60):
+        with common.alarm_guard(300), budget():
             emul_helper.emul_lines(m, instrs)
     except common.alarm_guard.Fired:
         sh.counters['watchdog_fired'] += 1
         return
+    except common.StepBound as e:
+        sh.case(canon, True, cls)
+        sh.violation('isa/emulation-step-bound/%s' % mech_class(lines), 'emul_lines(%s): %s' % ('; '.join(lines), e), wit)
+        return
     except Exception as e:
+        if isinstance(e, ValueError) and 'ECX value is' in str(e):
+            sh.counters['rep_with_symbolic_count(not applicable)'] += 1
+            return
         sh.case(canon, True, cls)
         sh.violation('isa/emulation-raises:%s/%s' % (type(e).__name__, mech_class(lines)), 'emul_lines(%s) raised %r' % ('; '.join(lines), e), wit)
         return
+    if rep and lines and lines[-1].split()[0] in ('repe', 'repne', 'repz', 'repnz'):
+        zfv = m.pool.pool_id.get(S.zf)
+        cnt0 = any(l.startswith('movl $0, %ecx') for l in lines)
+        if not cnt0 and (zfv is None or zfv.__class__.__name__ != 'ExprInt'):
+            sh.counters['repe/repne with symbolic zf (termination undecidable: not applicable)'] += 1
+            return
     sh.case(canon, True, cls)
     envs = make_envs(tag, 3)
     for env in envs:
@@ -315,9 +353,16 @@ def emulate_and_compare(sh, lines, blobs, tag, origin, rep=False):
             binit = getattr(S, 'init_' + basereg)
             for o in range(-8 if basereg == 'esp' else 0, 12):
                 for w in WIDTHS:
+                    if origin == 'isa-noalias' and (w != 32 or o % 4):
+                        continue
+                    if rep:
+                        ew = {'b': 8, 'w': 16, 'l': 32, 'd': 32}.get(lines[-1].split()[-1][-1], 8)
+                        if w != ew or o % (ew // 8):
+                            continue
                     a = ex.ExprOp('+', binit, exprgen.Int(o & 0xffffffff, 32)) if o else binit
                     try:
-                        rb = m.eval_expr(ex.ExprMem(a, w), {})
+                        with budget():
+                            rb = m.eval_expr(ex.ExprMem(a, w), {})
                     except Exception as e:
                         sh.violation('isa/readback-raises:%s/%s' % (type(e).__name__, mech_class(lines)), 'read-back @%d[init_%s%+d] after %s raised %r' % (w, basereg, o, '; '.join(lines), e), wit)
                         return
@@ -358,15 +403,15 @@ def mech_class(lines):
     return '+'.join(sorted(f)) or 'regs-only'
 
 
-def minimise(sh, lines, tag, origin, rep):
-    """Smallest sub-sequence (delta debugging by single deletions) that still fails; returns lines."""
+def minimise(sh, lines, tag, origin, rep, kind):
+    """Smallest sub-sequence (delta debugging by single deletions) that still fails the same way; returns lines."""
     def fails(ls):
         t = common.Shard()
         asm = gnuref.gas(ls, 'att')
         if any(a[0] is None for a in asm):
             return None
         emulate_and_compare(t, ls, [a[0] for a in asm], tag, origin, rep)
-        return t.violations[0] if t.violations else None
+        return t.violations[0] if (t.violations and t.violations[0]['key'].split('/')[1] == kind) else None
     cur = list(lines)
     changed = True
     while changed and len(cur) > 1:
@@ -394,13 +439,18 @@ def isa_case(sh, lines, tag, origin, rep=False):
     for s in t.samples:
         sh.sample(s)
     if t.violations:
-        small = minimise(sh, lines, tag, origin, rep)
+        small = minimise(sh, lines, tag, origin, rep, t.violations[0]['key'].split('/')[1])
         t2 = common.Shard()
         asm2 = gnuref.gas(small, 'att')
         emulate_and_compare(t2, small, [a[0] for a in asm2], tag, origin, rep)
         v = (t2.violations or t.violations)[0]
         kind = v['key'].split('/')[1]
-        key = 'isa/%s/%s' % (kind, mech_class(small))
+        if origin == 'isa-alias':
+            # partially overlapping accesses: one mechanism (the overlap logic of eval_ExprMem/eval_instr); the
+            # mechanisms themselves are keyed precisely by the IR-level histories of part (a)
+            key = 'isa-alias/state-differs-after-partially-overlapping-accesses'
+        else:
+            key = '%s/%s/%s' % (origin, kind, mech_class(small))
         sh.violation(key, v['detail'] + ' [minimised from %d to %d instructions: %s]' % (len(lines), len(small), '; '.join(small)), {'part': 'b', 'lines': small, 'rep': rep})
 
 
@@ -409,9 +459,14 @@ for _cnt in (0, 1, 2, 5):
     for _dir in ('cld', 'std'):
         for _ins in ('rep movsb', 'rep movsl', 'rep movsw', 'rep stosb', 'rep stosl', 'rep lodsb', 'rep lodsl'):
             REP_CASES.append(['movl $%d, %%ecx' % _cnt, _dir, _ins])
-        for _ins in ('repe cmpsb', 'repne cmpsb', 'repe scasb', 'repne scasb', 'repe cmpsl', 'repne scasl'):
-            # concrete data so that the termination test is decidable
-            REP_CASES.append(['movl $0x01010101, (%esi)', 'movl $0x01020101, (%edi)', 'movl $0x01, %eax', 'movl $%d, %%ecx' % _cnt, _dir, _ins])
+        for _ins in ('repe cmpsb', 'repne cmpsb', 'repe scasb', 'repne scasb'):
+            # concrete byte data (written with byte stores: no partial overlap) so that the termination test is decidable
+            _o = 0 if _dir == 'cld' else 0
+            _setup = []
+            for _k, (_a, _b) in enumerate(((1, 1), (1, 1), (1, 2), (1, 1), (3, 1))):
+                _off = _k if _dir == 'cld' else -_k
+                _setup += ['movb $%d, %d(%%esi)' % (_a, _off), 'movb $%d, %d(%%edi)' % (_b, _off)]
+            REP_CASES.append(_setup + ['movl $0x01, %eax', 'movl $%d, %%ecx' % _cnt, _dir, _ins])
 
 
 def shards(tier, seed):
@@ -425,6 +480,7 @@ def shards(tier, seed):
             out.append(('irrand', kind, i))
     for i in range(24 if tier == 'quick' else 400):
         out.append(('isa', i))
+        out.append(('isa-noalias', i))
     for i in range(0, len(REP_CASES), 8):
         out.append(('rep', i))
     return out
@@ -463,12 +519,12 @@ def run_shard(shard, tier, seed):
                     ops.append(('ld',) + rng.choice(acc))
             ops.append(('ld',) + rng.choice(acc))
             run_ir_history(sh, shard[1], ops, ('irr', seed, shard[2], i), 'irrand')
-    elif kind == 'isa':
-        rng = common.rng_for(seed, 'C07isa', shard[1])
+    elif kind in ('isa', 'isa-noalias'):
+        rng = common.rng_for(seed, 'C07' + kind, shard[1])
         for i in range(12 if tier == 'quick' else 20):
             n = rng.randint(1, 12)
-            lines = [gen_line(rng) for _ in range(n)]
-            isa_case(sh, lines, ('isa', seed, shard[1], i), 'isa')
+            lines = [gen_line(rng, alias=(kind == 'isa')) for _ in range(n)]
+            isa_case(sh, lines, (kind, seed, shard[1], i), 'isa-alias' if kind == 'isa' else 'isa-noalias')
     elif kind == 'rep':
         for j, lines in enumerate(REP_CASES[shard[1]:shard[1] + 8]):
             isa_case(sh, lines, ('rep', shard[1] + j), 'rep', rep=True)
